@@ -1264,3 +1264,30 @@ Proof.
   intros HR. apply inv_reachable in HR. repeat split; [apply (inv_recv _ HR)|apply (inv_frames _ HR)|].
   intros r f Hin. destruct (inv_resp _ HR _ _ Hin) as [H _]. exact H.
 Qed.
+
+(* ---------- the pool: nothing is taken from a connection whose error event was processed ---------- *)
+Lemma prun_app p l1 l2 : prun p (l1 ++ l2) = match prun p l1 with Some q => prun q l2 | None => None end.
+Proof.
+  revert p; induction l1 as [|l r IH]; intros p; cbn [prun app]; [reflexivity|].
+  destruct (pstep p l); [apply IH|reflexivity].
+Qed.
+
+Lemma pool_no_get_after_process l1 c l2 p :
+  prun pool_init (l1 ++ PProcess c :: l2) = Some p -> ~ In (PGet c) l2.
+Proof.
+  intros Hr Hin. rewrite prun_app in Hr. destruct (prun pool_init l1) as [p1|] eqn:R1; [|discriminate].
+  cbn [prun] in Hr. destruct (pstep p1 (PProcess c)) as [p2|] eqn:S2; [|discriminate].
+  assert (I1 : PInv p1) by (eapply pinv_run; [apply pinv_init|exact R1]).
+  assert (Hb : In c (p_broken p2) /\ ~ In c (p_events p2)).
+  { unfold pstep in S2. destruct (nmem c (p_events p1)) eqn:Ee; [|discriminate]. apply nmem_In in Ee.
+    injection S2 as <-. cbn. split; [apply (pi_events _ I1); exact Ee|].
+    intros H. apply filter_In in H. destruct H as [_ H]. rewrite N.eqb_refl in H. discriminate. }
+  apply in_split in Hin. destruct Hin as (la & lb & ->).
+  rewrite prun_app in Hr. destruct (prun p2 la) as [p3|] eqn:R3; [|discriminate].
+  cbn [prun] in Hr. destruct (pstep p3 (PGet c)) as [p4|] eqn:S4; [|discriminate].
+  assert (R12 : prun pool_init (l1 ++ [PProcess c]) = Some p2).
+  { rewrite prun_app, R1. cbn [prun]. rewrite S2. reflexivity. }
+  destruct Hb as [Hb1 Hb2].
+  pose proof (pool_never_again _ _ _ _ _ R12 Hb1 Hb2 R3) as Hn.
+  unfold pstep in S4. destruct (nmem c (p_shared p3)) eqn:E; [|discriminate]. apply nmem_In in E. tauto.
+Qed.
